@@ -3,11 +3,12 @@ def jobs(tier, ctx):
     out = []
     nps = [2] if tier == 'quick' else [2, 3]
     for np in nps:
-        out.append(dict(name='epoll_carrier.n%d' % np, srcs=['@harness/C19/epoll_carrier.c'], stubs=[], defs=['NP=%d' % np], unwind=np + 4, union_as_struct=False,
-                        targets=['async_runtime_wait', 'async_runtime_post_completion', 'async_runtime_wakeup'], timeout=200, mem_gb=4,
-                        desc='<= %d posts (completion with any non-zero key/data, or wake-up) before one async_runtime_wait: each completion delivered once with its key and data' % np,
+        for mx in ([np + 2, 1] if tier == 'quick' else [np + 2, 1, 2]):
+            out.append(dict(name='epoll_carrier.n%d.max%d' % (np, mx), srcs=['@harness/C19/epoll_carrier.c'], stubs=[], defs=['NP=%d' % np, 'MAXEV=%d' % mx], unwind=np + 5, union_as_struct=False,
+                        targets=['async_runtime_wait', 'async_runtime_post_completion', 'async_runtime_wakeup'], timeout=300, mem_gb=12, opt_witness=['second_wait_delivered'],
+                        desc='<= %d posts (completion with any non-zero key/data, or wake-up), then async_runtime_wait calls of at most %d events until one returns nothing: each completion delivered once with its key and data, nothing invented, nothing lost when the posts exceed one wait' % (np, mx),
                         inputs='number of posts, kind/key/data of each',
-                        assumptions=['eventfd/epoll modelled with the kernel semantics (counter adds; read returns sum and resets; readable iff non-zero)',
+                        assumptions=['the notification carrier is whichever kernel object the runtime creates, modelled with its documented semantics: eventfd (counter adds; read returns the sum and resets) or O_NONBLOCK pipe (FIFO of atomic 8-byte records, EAGAIN when empty/full); epoll level-triggered',
                                      'posts from other threads are single atomic write() calls, so only their number and order matter']))
     caps = [2] if tier == 'quick' else [1, 2, 3]
     for cap in caps:
